@@ -58,7 +58,8 @@ def gen_partfile(h: Harness, tier, workdir, known):
         if k.get("harness") == h.name and k.get("exclude"):
             pres.append("not (" + k["exclude"] + ")")
     lines = ["import sys", "sys.path.insert(0, '/verif')", "from vlib import env",
-             "from vlib.runtime import run_body", f"from {h.module} import {h.name} as _f", ""]
+             "from vlib.runtime import run_body", f"import {h.module} as _hm", f"from {h.module} import {h.name} as _f",
+             "globals().update({k: v for k, v in vars(_hm).items() if not k.startswith('__')})  # names used by pre-conditions", ""]
     names = []
     for tag, extra in t["parts"]:
         fn = f"{h.name}__{tag}"
